@@ -119,7 +119,10 @@ def _rand_script(rnd, cfg, horizon):
             e = rnd.randint(1, cfg['m'])
         d = rnd.choice([ABSENTV] * 5 + [NONEV, 0, 1, 2, 3, 5, INFV, -2])
         script.append({'t': t, 'e': e, 'd': d, 'v': rnd.randint(1, 5), 'rep': _rep(rnd),
-                       'c': int(cfg['kind'] == 'fsm' and rnd.random() < 0.4)})
+                       'c': int(cfg['kind'] == 'fsm' and rnd.random() < 0.4),
+                       # delivered by a loop callback that is due a hair before a timer of the same
+                       # tick: both are collected in one loop iteration, the event is handled first
+                       'race': rnd.random() < 0.35})
     script.sort(key=lambda x: x['t'])
     return script
 
@@ -373,12 +376,8 @@ def execute(stim):
                     await asyncio.sleep(delay)
 
             stop_at = stim['stop_at']
-            for op in stim['script']:
-                if op['t'] > stop_at or circuit.error is not None or task.done():
-                    break
-                await until(op['t'])
-                if circuit.error is not None or task.done():
-                    break
+
+            def do_op(op):
                 data = {}
                 if op['d'] != ABSENTV:
                     data['duration'] = _dur(op['d'], op['rep'])
@@ -398,11 +397,34 @@ def execute(stim):
                     ret = 'unknown'
                 except edzed.EdzedCircuitError:
                     ret = 'error'
+                except edzed.EdzedInvalidState:
+                    ret = 'invalid'
                 finally:
                     st['driver'] = False
                 lines.append({'ev': 'ext', 't': tick(loop.time()), 'e': op['e'], 'd': op['d'],
                               'v': op['v'], 'c': int(bool(op.get('c'))), 'ret': ret,
                               **(proj() if ret != 'error' else {'st': 0, 'out': 0, 'pend': [], 'gs': -1})})
+
+            for op in stim['script']:
+                if op['t'] > stop_at or circuit.error is not None or task.done():
+                    break
+                when = st['t0'] + op['t'] * TICK
+                if op.get('race') and when - 4e-10 > loop.time():
+                    fut = loop.create_future()
+
+                    def cb(op=op, fut=fut):
+                        try:
+                            if circuit.error is None and not task.done():
+                                do_op(op)
+                        finally:
+                            fut.set_result(None)
+                    loop.call_at(when - 4e-10, cb)
+                    await fut
+                    continue
+                await until(op['t'])
+                if circuit.error is not None or task.done():
+                    break
+                do_op(op)
             if circuit.error is None and not task.done():
                 await until(stop_at)
             if not task.done():
